@@ -3,14 +3,14 @@
 #define MEMSTREAM_CONTRACT_H
 #include <stddef.h>
 #include "../common/memcpy_contract.h"
-extern size_t e_dl, e_rp, e_bufsz, e_add, e_max, e_tcap; extern int e_st, e_ext; extern unsigned char e_buf[8];
+extern size_t e_dl, e_rp, e_bufsz, e_add, e_max, e_tcap, e_vlen, e_isz; extern int e_st, e_ext; extern unsigned char e_buf[32], e_v[32];
 extern int g_throw, g_debug, g_vec_alloc; extern unsigned g_errors, g_error_bits; extern size_t g_alloc_bytes;
 #define GOOD 0
 #define BAD 1
 #define EOFB 2
 #define FAIL 4
 #define SZMAX ((size_t)1 << 40)
-#define MS_GHOSTS e_dl, e_rp, e_bufsz, e_add, e_max, e_tcap, e_st, e_ext, __CPROVER_object_whole(e_buf)
+#define MS_GHOSTS e_dl, e_rp, e_bufsz, e_add, e_max, e_tcap, e_vlen, e_isz, e_st, e_ext, __CPROVER_object_whole(e_buf), __CPROVER_object_whole(e_v)
 #define ST_OK(st) __CPROVER_is_fresh(st, 4 * sizeof(size_t))
 #define STATE_OK(st) ((st)[2] <= 7)
 /* write mode invariant: the data length is the size of the (internal) buffer, which the frame backs with bufsz bytes */
@@ -75,6 +75,8 @@ __CPROVER_ensures(st[0] == O(st[0])) \
 __CPROVER_ensures((8 > O(st[0]) - O(st[1])) ==> (st[2] == (O(st[2]) | EOFB) && st[1] == O(st[1]) && *vlen == O(*vlen))) \
 __CPROVER_ensures((8 <= O(st[0]) - O(st[1]) && *(size_t *)(buf + O(st[1])) <= (O(st[0]) - O(st[1]) - 8) / sizeof(T)) ==> \
    (st[2] == GOOD && *vlen == *(size_t *)(buf + O(st[1])) && st[1] == O(st[1]) + 8 + *vlen * sizeof(T))) \
+__CPROVER_ensures((*vlen <= vcap) ==> __CPROVER_return_value == v) \
+__CPROVER_ensures((*vlen > vcap) ==> __CPROVER_is_fresh(__CPROVER_return_value, *vlen * sizeof(T))) \
 __CPROVER_ensures((8 <= O(st[0]) - O(st[1]) && *(size_t *)(buf + O(st[1])) <= (O(st[0]) - O(st[1]) - 8) / sizeof(T) \
                    && g_mw < *vlen * sizeof(T)) ==> ((unsigned char *)__CPROVER_return_value)[g_mw] == buf[O(st[1]) + 8 + g_mw]) \
 __CPROVER_ensures((8 <= O(st[0]) - O(st[1]) && *(size_t *)(buf + O(st[1])) > (O(st[0]) - O(st[1]) - 8) / sizeof(T)) ==> \
